@@ -29,6 +29,10 @@ type ceval struct {
 	env  map[types.Object]cevalue
 	err  error
 	c    *Ctx
+	// indexHook supplies the value of an index expression on a non-constant operand (the scanned buffer)
+	indexHook func(*ast.IndexExpr) (int64, bool)
+	// assigned records the variables written during the evaluation
+	assigned map[types.Object]bool
 }
 
 type ceReturn struct{ v []cevalue }
@@ -315,6 +319,9 @@ func (e *ceval) stmt(st ast.Stmt) *ceReturn {
 				r.i = e.wrap(r.i, o.Type())
 			}
 			e.env[o] = r
+			if e.assigned != nil {
+				e.assigned[o] = true
+			}
 		}
 		return nil
 	case *ast.DeclStmt:
@@ -335,7 +342,29 @@ func (e *ceval) stmt(st ast.Stmt) *ceReturn {
 	case *ast.BlockStmt:
 		return e.block(x.List)
 	case *ast.ExprStmt:
+		if call, ok := x.X.(*ast.CallExpr); ok && isLoggingCall(e.info, call) {
+			return nil
+		}
 		e.fail("expression statement not supported")
+		return nil
+	case *ast.BranchStmt:
+		return nil
+	case *ast.IncDecStmt:
+		if id, ok := x.X.(*ast.Ident); ok {
+			o := e.info.ObjectOf(id)
+			v := e.env[o]
+			if x.Tok == token.INC {
+				v.i++
+			} else {
+				v.i--
+			}
+			e.env[o] = v
+			if e.assigned != nil {
+				e.assigned[o] = true
+			}
+			return nil
+		}
+		e.fail("unsupported inc/dec")
 		return nil
 	}
 	e.fail("unsupported statement %T", st)
@@ -451,6 +480,11 @@ func (e *ceval) expr(x ast.Expr) cevalue {
 				return cevalue{i: tab[idx.i]}
 			}
 		}
+		if e.indexHook != nil {
+			if v, ok := e.indexHook(t); ok {
+				return cevalue{i: v}
+			}
+		}
 		return e.fail("unsupported index expression")
 	case *ast.CallExpr:
 		if tv, ok := e.info.Types[t.Fun]; ok && tv.IsType() && len(t.Args) == 1 {
@@ -483,4 +517,12 @@ func (e *ceval) wrapExpr(v int64, x ast.Expr) int64 {
 		return e.wrap(v, tv.Type)
 	}
 	return v
+}
+
+// evalStmts evaluates a loop-free statement list in the given environment and
+// returns the variables assigned.
+func evalStmts(c *Ctx, p *packages.Package, stmts []ast.Stmt, env map[types.Object]cevalue, hook func(*ast.IndexExpr) (int64, bool)) (map[types.Object]bool, error) {
+	e := &ceval{p: p, info: p.TypesInfo, env: env, c: c, indexHook: hook, assigned: map[types.Object]bool{}}
+	e.block(stmts)
+	return e.assigned, e.err
 }
